@@ -109,7 +109,8 @@ def run(tier):
     json.dump(pairs, open(pf, "w"))
     out = os.path.join(wd, "race.json")
     env = dict(vlib.GOENV, GORACE="halt_on_error=0 exitcode=66")
-    p = subprocess.run([os.path.join(vlib.HBIN, "racedrv-race"), "-pairs", pf, "-out", out, "-seed", str(sd)], env=env, capture_output=True, text=True, timeout=3000)
+    p = subprocess.run([os.path.join(vlib.HBIN, "racedrv-race"), "-pairs", pf, "-out", out, "-seed", str(sd), "-storm", "700" if quick else "6000"],
+                       env=env, capture_output=True, text=True, timeout=3000)
     if not os.path.exists(out):
         raise vlib.Inconclusive("racedrv failed: %s" % (p.stdout + p.stderr)[-2000:])
     # attribute race reports to the pair in progress
@@ -123,7 +124,7 @@ def run(tier):
             races[cur] = races.get(cur, 0) + 1
     for res in json.load(open(out)):
         pr = res["pair"]
-        key = (pr["handler"], pr["a"], pr["b"])
+        key = (pr["handler"], pr["a"], pr["b"] if "storm" not in pr["b"] else "storm")
         if races.get(key):
             rep.violation({"what": "data-race", "handler": pr["handler"]},
                           "%s: %s and %s called from two goroutines on a live session: the race detector reports %d data race(s)" % (pr["handler"], pr["a"], pr["b"], races[key]),
